@@ -22,6 +22,35 @@ type c14PushCase struct {
 	Prefill int    `json:"prefill"`
 	NoNest  bool   `json:"no_nesting"`
 	Mutex   bool   `json:"mutex,omitempty"`
+	// ErrShape: what a rejection looks like: 0 an ordinary error value, 1 a nil pointer of a pointer-receiver
+	// error type (a non-nil error all the same), 2 an error of a struct type, 3 a wrapped error
+	ErrShape int `json:"error_shape,omitempty"`
+}
+
+// ptrErr is an error type with pointer receiver: a nil *ptrErr in an error interface is a non-nil error.
+type ptrErr struct{ msg string }
+
+func (e *ptrErr) Error() string {
+	if e == nil {
+		return "rejected (nil *ptrErr)"
+	}
+	return e.msg
+}
+
+type structErr struct{ code int }
+
+func (e structErr) Error() string { return fmt.Sprintf("rejected with code %d", e.code) }
+
+func c14Rejection(cl, shape int) error {
+	switch shape {
+	case 1:
+		return (*ptrErr)(nil)
+	case 2:
+		return structErr{cl}
+	case 3:
+		return fmt.Errorf("wrapped: %w", errReject[cl])
+	}
+	return errReject[cl]
 }
 
 var errReject = [4]error{errors.New("reject class 0"), errors.New("reject class 1"), errors.New("reject class 2"), errors.New("reject class 3")}
@@ -79,7 +108,7 @@ func c14PushRun(c *Ctx, cs c14PushCase, count bool) {
 		}
 		log = append(log, x[0])
 		if cl := c14Class(x[0]); cs.Policy&(1<<cl) == 0 {
-			return errReject[cl]
+			return c14Rejection(cl, cs.ErrShape)
 		}
 		return nil
 	})
@@ -135,7 +164,7 @@ func c14PushRun(c *Ctx, cs c14PushCase, count bool) {
 		}
 		wantLog = append(wantLog, v)
 		if cl := c14Class(v); cs.Policy&(1<<cl) == 0 {
-			wantErr = errReject[cl]
+			wantErr = c14Rejection(cl, cs.ErrShape)
 			break
 		}
 		content = append(content, v)
@@ -152,7 +181,7 @@ func c14PushRun(c *Ctx, cs c14PushCase, count bool) {
 		}
 		c.Violation(cls, fmt.Sprintf("%s: content %s want %s", desc, showList(got), showList(content)), cs, len(cs.Batch))
 	}
-	if got := s.Err(); got != wantErr {
+	if got := s.Err(); (cs.ErrShape == 0 && got != wantErr) || (cs.ErrShape != 0 && ((got == nil) != (wantErr == nil) || (got != nil && got.Error() != wantErr.Error()))) {
 		c.Violation("push-policy:err", fmt.Sprintf("%s: Err()=%v want %v", desc, got, wantErr), cs, len(cs.Batch))
 	}
 	if count {
@@ -195,12 +224,22 @@ func c14PushCases(c *Ctx) []c14PushCase {
 							if nn && (pre != 0 || cp == 3) {
 								continue
 							}
-							out = append(out, c14PushCase{k, pol, b, cp, pre, nn, false})
+							out = append(out, c14PushCase{k, pol, b, cp, pre, nn, false, 0})
 							if len(b) <= 2 || cp == 2 {
-								out = append(out, c14PushCase{k, pol, b, cp, pre, nn, true})
+								out = append(out, c14PushCase{k, pol, b, cp, pre, nn, true, 0})
 							}
 						}
 					}
+				}
+			}
+		}
+	}
+	// rejections of other shapes than a plain error value
+	for shape := 1; shape <= 3; shape++ {
+		for pol := 0; pol < 16; pol++ {
+			for _, b := range batches {
+				if len(b) <= 2 {
+					out = append(out, c14PushCase{Kind: kindNames[(pol+shape)%5], Policy: pol, Batch: b, ErrShape: shape, Mutex: pol%4 == 1})
 				}
 			}
 		}
@@ -220,7 +259,7 @@ func c14PushCases(c *Ctx) []c14PushCase {
 					b[p+2] = 1
 				}
 				for _, cp := range []int{0, n - 2, n + 5} {
-					out = append(out, c14PushCase{kindNames[(n+p)%5], 1, b, cp, 0, false, cp == 0 && odd == 1}, c14PushCase{kindNames[(n+p+1)%5], 15, b, cp, 1, false, false})
+					out = append(out, c14PushCase{kindNames[(n+p)%5], 1, b, cp, 0, false, cp == 0 && odd == 1, 0}, c14PushCase{kindNames[(n+p+1)%5], 15, b, cp, 1, false, false, 0})
 				}
 			}
 		}
